@@ -427,6 +427,11 @@ def run(ctx: Ctx):
     # the adsorbate quantities entering the factors are those AT THE STATED TEMPERATURE, whatever the shared backend state was asked before
     from .C20 import r_getter_history
     r_getter_history(ctx, model, prop="C01", rule="R-adsorbate")
+    # ... and in the unit asked for, on every route of the getter (backend value, stored property when the backend cannot answer): the
+    # relative <-> absolute factor is Adsorbate.saturation_pressure(temp, unit=...) (getter outcome table shared with C20)
+    from .C20 import r_getters
+    r_getters(ctx, model, prop="C01", rule="R-adsorbate", only=("saturation_pressure", "liquid_density", "gas_density", "liquid_molar_density",
+                                                              "gas_molar_density", "molar_mass"))
 
 
 META = {
